@@ -115,6 +115,7 @@ func runGates(c *Ctx, specs []GateSpec) {
 			return out
 		}
 		var targets map[*cfg.Block]bool
+		var targetSites []site
 		var tdesc string
 		var loopHead *cfg.Block
 		if sp.LoopOver != "" {
@@ -158,6 +159,7 @@ func runGates(c *Ctx, specs []GateSpec) {
 				continue
 			}
 			targets = blocksOf(sites)
+			targetSites = sites
 			tdesc = "call of " + strings.Join(syms, "|")
 		case strings.HasPrefix(sp.Target, "node:"):
 			syms := strings.Split(strings.TrimPrefix(sp.Target, "node:"), ",")
@@ -167,6 +169,7 @@ func runGates(c *Ctx, specs []GateSpec) {
 				continue
 			}
 			targets = blocksOf(sites)
+			targetSites = sites
 			tdesc = "statement mentioning " + strings.Join(syms, " + ")
 		case strings.HasPrefix(sp.Target, "write:"):
 			fld := strings.TrimPrefix(sp.Target, "write:")
@@ -236,6 +239,12 @@ func runGates(c *Ctx, specs []GateSpec) {
 		}
 		for _, mn := range sp.MustNode {
 			ok, path, n := f.CheckMustNode(from, targets, sp.Assume, mn...)
+			if ok && n > 0 && targetSites != nil {
+				// same-block order: the statement must come before the target, not merely share its block
+				if ok2, p2 := f.mustBefore(from, targetSites, f.NodeSites(mn...), sp.Assume); !ok2 {
+					ok, path = false, p2
+				}
+			}
 			key := base + ".must-pass." + shortSym(mn[len(mn)-1])
 			if ok && n > 0 {
 				c.OK(key, c.P.Pos(fd.Decl.Pos()), fmt.Sprintf("%s: every path to the %s passes a statement mentioning %s", FuncKey(fd.Obj), tdesc, strings.Join(mn, " + ")))
@@ -245,6 +254,11 @@ func runGates(c *Ctx, specs []GateSpec) {
 		}
 		for _, mc := range sp.MustCall {
 			ok, path := f.CheckMustCall(from, targets, sp.Assume, mc...)
+			if ok && targetSites != nil {
+				if ok2, p2 := f.mustBefore(from, targetSites, f.CallSites(mc...), sp.Assume); !ok2 {
+					ok, path = false, p2
+				}
+			}
 			key := base + ".must-call." + shortSym(mc[0])
 			if !ok {
 				if ok2, _ := delegatedMustCall(c.P, f, fd.Obj, from, targets, sp.Assume, mc, 0); ok2 {
